@@ -159,8 +159,10 @@ def get_cycle_vector(phase, return_good=True, mask=None,
         # check anyway
         if inds[0] >= 1:
             inds = np.r_[0, inds]
-        if inds[-1] <= phase.shape[0] - 1:
-            inds = np.r_[inds, phase.shape[0] - 1]
+        if inds[-1] < phase.shape[0]:
+            # Close the final segment one past the last sample so that the
+            # last sample is included and no empty segment is created
+            inds = np.r_[inds, phase.shape[0]]
 
         count = 0
         for jj in range(len(inds) - 1):
